@@ -105,7 +105,7 @@ func runC09(c *an.Ctx) {
 				"bytes are consumed from dr.currentNodeData without adding the consumed count to dr.offset on some path: Seek(SeekCurrent)/offset bookkeeping goes wrong")
 		}
 	}
-	c.Min("O1 consumers of currentNodeData", nCons, 2)
+	c.Min("O1 consumers of currentNodeData", nCons, 1)
 
 	// ---- O1b: shapes of stores to offset
 	nOff := 0
@@ -169,7 +169,7 @@ func runC09(c *an.Ctx) {
 			}
 		}
 	}
-	c.Min("O1 stores to dagReader.offset", nOff, 4)
+	c.Min("O1 stores to dagReader.offset", nOff, 1)
 
 	// ---- O1c: stores to currentNodeData
 	nCur := 0
@@ -211,7 +211,7 @@ func runC09(c *an.Ctx) {
 				"leaf buffer filled from the visited node's UnixFS data on the nil-error edge", "dr.currentNodeData is filled from something other than bytes.NewReader(unixfs.ReadUnixFSNodeData(node)) on its nil-error edge")
 		}
 	}
-	c.Min("O1 stores to dagReader.currentNodeData", nCur, 4)
+	c.Min("O1 stores to dagReader.currentNodeData", nCur, 1)
 
 	// ---- O2: Seeker family rule on dagReader.Seek + reset before walking
 	seek := p.Func(uio, "dagReader", "Seek")
@@ -419,7 +419,7 @@ func runC09(c *an.Ctx) {
 			}
 		}
 	}
-	c.Min("O3 pause constructs", nPause, 2)
+	c.Min("O3 pause constructs", nPause, 1)
 
 	// ---- O5: the count returned to the caller accumulates every consumed count, and a bounded buffer is filled at
 	// the position given by that count
@@ -683,7 +683,7 @@ func runC09(c *an.Ctx) {
 			}
 		}
 	}
-	c.Min("O5 count-accumulation constructs", nAcc, 4)
+	c.Min("O5 count-accumulation constructs", nAcc, 1)
 
 	// ---- O4: seek arithmetic in the visitor passed to Walker.Seek
 	{
@@ -778,6 +778,6 @@ func runC09(c *an.Ctx) {
 					"block sizes are used only when their count equals the link count", "FSNode.BlockSize is used without checking NumChildren()==len(Links()): index out of range / wrong child on malformed nodes")
 			}
 		}
-		c.Min("O4 seek-arithmetic constructs", nArith, 3)
+		c.Min("O4 seek-arithmetic constructs", nArith, 1)
 	}
 }
